@@ -167,7 +167,7 @@ func genMember(m map[string]interface{}, t, p string, depth int, g *prng.R, vs v
 		return kindChoice{IRI: true}
 	}
 	vs[pr.VocabURI] = true
-	if pr.NatLang && g.Chance(1, 3) {
+	if pr.NatLang && pr.Vocab != *noMapVocab && g.Chance(1, 3) {
 		m[pr.Name+"Map"] = canonLiteral("RDFLangString", g)
 		return
 	}
